@@ -165,6 +165,32 @@ def _bounded_string_key(node, fn):
     return False
 
 
+def _value_kind_evidence(ctx, arg, fn):
+    """Positive evidence that an argument can be a spreadsheet value (a number, a boolean, an instance of a value class) - the kinds
+    whose equality is coarser than what is computed from them (1 == 1.0 == True, Text("") == Number(0))."""
+    if isinstance(arg, ast.Constant):
+        return not isinstance(arg.value, str)
+    if isinstance(arg, ast.Attribute) and arg.attr == 'value':
+        return True
+    if isinstance(arg, ast.Name) and fn is not None:
+        for a in fn.args.posonlyargs + fn.args.args + fn.args.kwonlyargs:
+            if a.arg == arg.id and a.annotation is not None and 'Xl' in ast.unparse(a.annotation):
+                return True
+        for x in walk_local(fn):
+            if isinstance(x, ast.Call) and isinstance(x.func, ast.Name) and x.func.id == 'isinstance' and len(x.args) == 2 \
+                    and isinstance(x.args[0], ast.Name) and x.args[0].id == arg.id \
+                    and any(isinstance(e, ast.Name) and e.id in ('int', 'float', 'bool', 'complex') for e in ast.walk(x.args[1])):
+                return True
+            if isinstance(x, ast.Assign) and any(isinstance(t, ast.Name) and t.id == arg.id for t in x.targets) and isinstance(x.value, ast.Call):
+                callee = ast.unparse(x.value.func)
+                if callee.endswith(('cast_from_native', '.cast')) or callee.rpartition('.')[2] in ('Number', 'Text', 'Boolean', 'Blank', 'DateTime'):
+                    return True
+            if isinstance(x, ast.Assign) and any(isinstance(t, ast.Name) and t.id == arg.id for t in x.targets) \
+                    and isinstance(x.value, ast.Attribute) and x.value.attr == 'value':
+                return True
+    return False
+
+
 def _memo_key_findings(ctx, modules):
     """(node, construct, why): memoised plain functions whose cache key is not provably a plain string. The cache compares keys with
     == and hash(): 1, 1.0 and True are ONE key, and the value classes of this package compare by Excel semantics (Text("") == Number(0),
@@ -199,6 +225,9 @@ def _memo_key_findings(ctx, modules):
                                 arg = c.args[idx] if len(c.args) > idx else next((k.value for k in c.keywords if k.arg == a.arg), None)
                                 sites.append((ofn, arg))
                 proven = bool(sites) and all(arg is not None and _str_kind(arg, ofn) for ofn, arg in sites)
+                risky = [(_ofn, _arg) for _ofn, _arg in sites if _arg is not None and _value_kind_evidence(ctx, _arg, _ofn)]
+                if not proven and not risky and sites:
+                    continue        # keyed by objects of unknown kind (functions, nodes, ...): what the key confuses is decided by the scenarios
                 if not proven:
                     yield (fn, f'cache key of the memoised {qual}: parameter {idx}',
                            f'{qual} is memoised ({memo[0][4:]}) and its parameter `{a.arg}` is not provably a plain string at every call '
@@ -261,7 +290,8 @@ def compile_it(criteria):
 def unquote(name: str):
     return name.strip()
 def parse(x):
-    return compile_it(cast(x)), unquote(str(x))
+    v = ExcelType.cast_from_native(x)
+    return compile_it(v), unquote(str(x))
 '''
 
 
@@ -449,6 +479,8 @@ def rule_3(ctx):
                     ctx.ok(c, f'id() in {qual}: identity comparison (a is b)')
                 elif nd == 'builtin:hash' and qual.endswith('.__hash__'):
                     ctx.ok(c, f'hash() in {qual}: hash of a value')
+                elif nd in ('builtin:hash', 'builtin:id') and isinstance(getattr(c, '_parent', None), ast.Expr):
+                    ctx.ok(c, f'{nd[8:]}() in {qual}: result discarded (a hashability / identity probe)')
                 elif nd.startswith('ext:uuid') and m.name == 'tokenizer':
                     ctx.ok(c, f'uuid in {qual}: token identity field, never part of a computed value')
                 else:
@@ -547,8 +579,11 @@ ORDER_CELLS = {
     'A1': 5, 'A2': 0, 'A3': 7.5, 'A4': 'abc', 'A5': True, 'B1': '=A1+1', 'B2': '=A2*2', 'B3': '=A3-1', 'C1': '=B1*2+B1', 'D1': '=SUM(B1:B3)+A2',
     'E1': '=D1-C1', 'F1': '=IF(A2>0,B1,C1)', 'G1': '=AND(B1:B3)', 'H1': '=SUM(A1:A3,B1:B3)', 'I1': '=A4&A1&A5', 'J1': '=ABS(B3-A1*3)',
     'K1': '=IF(A5,LEN(A4),0)+ABS(-A1)', 'L1': '=MAX(A1:A3)>=MIN(B1:B3)', 'M1': '=1/A2', 'N1': '=IF(ISERROR(M1),B1,M1)', 'O1': '=ABS(A1)&LEFT(A4,2)',
+    'A6': '=""', 'A7': False, 'A8': 1, 'A9': 0.0,
+    'P1': '=COUNTIF(A1:A9,A2)', 'P2': '=COUNTIF(A1:A9,"")', 'P3': '=COUNTIF(A1:A9,A7)', 'P4': '=COUNTIF(A1:A9,A5)', 'P5': '=COUNTIF(A1:A9,1)',
+    'P6': '=COUNTIF(A1:A9,A6)', 'P7': '=COUNTIF(A1:A9,"1")', 'P8': '=COUNTIF(A1:A9,"<>0")',
 }
-_ORDER_ADDRS = ['B1', 'C1', 'D1', 'E1', 'F1', 'G1', 'H1', 'I1', 'J1', 'K1', 'L1', 'M1', 'N1', 'O1']
+_ORDER_ADDRS = ['B1', 'C1', 'D1', 'E1', 'F1', 'G1', 'H1', 'I1', 'J1', 'K1', 'L1', 'M1', 'N1', 'O1', 'P1', 'P2', 'P3', 'P4', 'P5', 'P6', 'P7', 'P8']
 
 
 def rule_6(ctx):
